@@ -139,7 +139,8 @@ Definition eval_sort (t : ty) (lst : val) (real : sexp) : verdict :=
               let spec := (multiset_eq (seq t) es os && is_ok (status f os) && sorted_b le os)%bool in
               let mok := match m with
                          | Ok mv => match elems mv with
-                                    | Some ms => (Bool.eqb (is_nil_sl mv) (is_nil_sl out) && all2b eqv ms os)%bool
+                                    (* nil vs empty of the result is no part of the property: not compared *)
+                                    | Some ms => all2b eqv ms os
                                     | None => false
                                     end
                          | _ => false
@@ -198,9 +199,10 @@ Definition eval_keys (t : ty) (msx : sexp) (real : sexp) : verdict :=
                   end
               | _, _ =>
                   (* a nil slice for a map: holds the right keys only if the map is empty *)
-                  {| v_known := typed; v_model_ok := false;
-                     v_spec_ok := (match o with Sym s => String.eqb s "nils" | _ => false end
-                                   && match kin with [] => true | _ => false end)%bool;
+                  let nil_ok := (match o with Sym s => String.eqb s "nils" | _ => false end
+                                 && match kin with [] => true | _ => false end)%bool in
+                  {| v_known := typed; v_model_ok := (nil_ok && same)%bool;
+                     v_spec_ok := nil_ok;
                      v_guard := typed; v_model := vres_sexp mres; v_tag := tag0 |}
               end
           end
